@@ -7,6 +7,9 @@ correspondence run (harness/c03.py), not proved.
 -/
 import Midgard.Model.TimeArith
 import Midgard.Generated.SourceExprsTime
+import Midgard.Model.TimePurityFlag
+import Midgard.Proofs.TimeArrays
+import Midgard.Proofs.TimeFloat
 import Mathlib.Tactic.Ring
 import Mathlib.Tactic.NormNum
 import Mathlib.Algebra.Order.Field.Rat
@@ -126,6 +129,261 @@ example : DFmt.toJds .seconds (-43200) 0 = ⟨-1, 1/2⟩ := by decide +kernel
 example : roundHalfEven (5/2) = 2 ∧ roundHalfEven (7/2) = 4 ∧ roundHalfEven (-5/2) = -2 := by decide +kernel
 
 
+/-! ### Scalar *and array* operands: the laws hold element by element under NumPy broadcasting
+
+`Model/TimeArrays.lean`: an operand is a scalar or a one-dimensional array, `binopV` is the operator on such operands
+(`binopV_scalar`: on scalars it is `binop`).  A successful operation has the broadcast length and its element `i` is the scalar
+operation on the elements `i` of the operands, a one-element operand being stretched (`binopV_elementwise`); the six laws
+follow for every element of every compatible combination of shapes (array ± scalar, array ± array, length-1 arrays). -/
+
+/-- an operator on scalar/array operands either refuses (scale guard / kinds, exactly as on scalars), or fails with NumPy's
+shape error exactly when the shapes are incompatible, or returns the broadcast length with the scalar operator applied
+element by element -/
+theorem binopV_elementwise (op : Op) (ka kb : Kind) (s : Scale) (a b : Val) :
+    match binopFn op ka kb with
+    | none => binopV op ka s a kb s b = .notImplemented
+    | some (k, f) =>
+      (¬ (a.size = b.size ∨ a.size = 1 ∨ b.size = 1) → binopV op ka s a kb s b = .shapeError) ∧
+      ((a.size = b.size ∨ a.size = 1 ∨ b.size = 1) → ∃ v, binopV op ka s a kb s b = .ok k v ∧
+        v.size = (if a.size = 1 then b.size else a.size) ∧
+        ∀ i, i < v.size → binop op ka s (a.getB i) kb s (b.getB i) = .ok k (v.getB i)) := by
+  cases hf : binopFn op ka kb with
+  | none => simp [binopV, hf]
+  | some kf =>
+    obtain ⟨k, f⟩ := kf
+    simp only
+    constructor
+    · intro hn
+      have : broadcast2 f a b = none := by
+        cases hb : broadcast2 f a b with
+        | none => rfl
+        | some v => exact absurd (broadcast2_spec f a b v hb).1 hn
+      simp [binopV, hf, this]
+    · intro hc
+      obtain ⟨v, hv⟩ := Option.isSome_iff_exists.mp ((broadcast2_isSome f a b).mpr hc)
+      obtain ⟨_, hsz, hget⟩ := broadcast2_spec f a b v hv
+      refine ⟨v, by simp [binopV, hf, hv], hsz, ?_⟩
+      intro i hi
+      rw [binop_binopFn, hf, hget i (Or.inl hi)]
+      simp
+
+/-- mixing scales is refused for every shape of operands -/
+theorem mixed_scale_refused_arrays (op : Op) (ka kb : Kind) (sa sb : Scale) (a b : Val) (h : sa ≠ sb) :
+    binopV op ka sa a kb sb b = .notImplemented := by
+  simp [binopV, h]
+
+/-- what `binopV … = .ok k v` means in terms of `broadcast2` -/
+theorem binopV_ok {op : Op} {ka kb : Kind} {sa sb : Scale} {a b v : Val} {k : Kind} {f : JD → JD → JD}
+    (hf : binopFn op ka kb = some (k, f)) (h : binopV op ka sa a kb sb b = .ok k v) : broadcast2 f a b = some v := by
+  unfold binopV at h
+  by_cases hs : sa = sb
+  · simp only [hs, ne_eq, not_true_eq_false, if_false, hf] at h
+    cases hb : broadcast2 f a b with
+    | none => simp [hb] at h
+    | some w => simp only [hb, ResV.ok.injEq, true_and] at h; rw [h]
+  · simp [hs] at h
+
+/-- (t + d) − t = d, element by element -/
+theorem add_sub_cancel_arrays (s : Scale) (t d x r : Val)
+    (h1 : binopV .add .time s t .delta s d = .ok .time x) (h2 : binopV .sub .time s x .time s t = .ok .delta r) :
+    ∀ i, i < r.size → (r.getB i).inst = (d.getB i).inst := by
+  intro i hi
+  rw [broadcast2_comp_left tAddD tSubT t d t x r (binopV_ok rfl h1) (binopV_ok rfl h2) i hi]
+  exact add_sub_cancel _ _
+
+/-- (t − d) + d = t, element by element -/
+theorem sub_add_cancel_arrays (s : Scale) (t d x r : Val)
+    (h1 : binopV .sub .time s t .delta s d = .ok .time x) (h2 : binopV .add .time s x .delta s d = .ok .time r) :
+    ∀ i, i < r.size → (r.getB i).inst = (t.getB i).inst := by
+  intro i hi
+  rw [broadcast2_comp_left tSubD tAddD t d d x r (binopV_ok rfl h1) (binopV_ok rfl h2) i hi]
+  exact sub_add_cancel _ _
+
+/-- (t₂ − t₁) + t₁ = t₂, element by element -/
+theorem diff_add_arrays (s : Scale) (t₁ t₂ x r : Val)
+    (h1 : binopV .sub .time s t₂ .time s t₁ = .ok .delta x) (h2 : binopV .add .delta s x .time s t₁ = .ok .time r) :
+    ∀ i, i < r.size → (r.getB i).inst = (t₂.getB i).inst := by
+  intro i hi
+  rw [broadcast2_comp_left tSubT dAddT t₂ t₁ t₁ x r (binopV_ok rfl h1) (binopV_ok rfl h2) i hi]
+  exact diff_add _ _
+
+/-- t − d = t + (−d), element by element, for any array `nd` holding the negated durations (e.g. built by the format's own
+constructor from the negated values: `sub_eq_add_neg`, `toJds_inst`) -/
+theorem sub_eq_add_neg_arrays (s : Scale) (t d nd r₁ r₂ : Val) (hsz : nd.size = d.size)
+    (hneg : ∀ i, (nd.getB i).inst = -(d.getB i).inst)
+    (h1 : binopV .sub .time s t .delta s d = .ok .time r₁) (h2 : binopV .add .time s t .delta s nd = .ok .time r₂) :
+    r₁.size = r₂.size ∧ ∀ i, i < r₁.size → (r₁.getB i).inst = (r₂.getB i).inst := by
+  obtain ⟨_, z1, g1⟩ := broadcast2_spec _ _ _ _ (binopV_ok rfl h1)
+  obtain ⟨_, z2, g2⟩ := broadcast2_spec _ _ _ _ (binopV_ok rfl h2)
+  have hz : r₁.size = r₂.size := by rw [z1, z2, hsz]
+  refine ⟨hz, fun i hi => ?_⟩
+  rw [g1 i (Or.inl hi), g2 i (Or.inl (hz ▸ hi))]
+  have := hneg i
+  simp only [tSubD, tAddD, JD.inst] at this ⊢
+  linarith
+
+/-- d₁ + d₂ = d₂ + d₁ for every shape: the other order succeeds as well and gives the same array -/
+theorem delta_add_comm_arrays (s : Scale) (d e r : Val) (h1 : binopV .add .delta s d .delta s e = .ok .delta r) :
+    ∃ r', binopV .add .delta s e .delta s d = .ok .delta r' ∧ r'.size = r.size ∧ ∀ i, i < r.size → r'.getB i = r.getB i := by
+  obtain ⟨hc, z1, g1⟩ := broadcast2_spec _ _ _ _ (binopV_ok rfl h1)
+  have hc' : e.size = d.size ∨ e.size = 1 ∨ d.size = 1 := by rcases hc with h | h | h <;> simp [h]
+  obtain ⟨r', hr'⟩ := Option.isSome_iff_exists.mp ((broadcast2_isSome dAddD e d).mpr hc')
+  obtain ⟨_, z2, g2⟩ := broadcast2_spec _ _ _ _ hr'
+  have hz : r'.size = r.size := by
+    rw [z1, z2]
+    by_cases h1 : d.size = 1 <;> by_cases h2 : e.size = 1 <;> simp [h1, h2]
+    rcases hc with h | h | h
+    · exact h.symm
+    · exact absurd h h1
+    · exact absurd h h2
+  refine ⟨r', by simp [binopV, binopFn, hr'], hz, fun i hi => ?_⟩
+  rw [g1 i (Or.inl hi), g2 i (Or.inl (hz ▸ hi))]
+  exact delta_add_comm _ _
+
+/-- (d₁ + d₂) − d₂ = d₁, element by element -/
+theorem delta_add_sub_arrays (s : Scale) (d e x r : Val)
+    (h1 : binopV .add .delta s d .delta s e = .ok .delta x) (h2 : binopV .sub .delta s x .delta s e = .ok .delta r) :
+    ∀ i, i < r.size → (r.getB i).inst = (d.getB i).inst := by
+  intro i hi
+  rw [broadcast2_comp_left dAddD dSubD d e e x r (binopV_ok rfl h1) (binopV_ok rfl h2) i hi]
+  exact delta_add_sub _ _
+
+example : binopV .add .time .utc (.array [⟨2458000, 1/4⟩, ⟨2458001, 1/2⟩]) .delta .utc (.scalar ⟨3, 1/4⟩)
+    = .ok .time (.array [⟨2458003, 1/2⟩, ⟨2458004, 3/4⟩]) := by decide +kernel
+example : binopV .add .time .utc (.array [⟨1, 0⟩, ⟨2, 0⟩, ⟨3, 0⟩]) .delta .utc (.array [⟨1, 0⟩, ⟨2, 0⟩]) = .shapeError := by
+  decide +kernel
+
+/-! ### `ops_pure`: no operator and no constructor writes to an object that existed before the call
+
+Operands and caller arrays live on a heap of buffers (contents + `writeable` flag).  The operators and the duration
+constructors only *allocate*: the heap after the call is the heap before it with the new buffers appended
+(`List.IsPrefix`) — contents and flags of every earlier buffer are untouched; what is stored reads back as the value the
+array model computes (`binopH_refines`).  The constructor model has a switch `writes` for the in-place rescaling the
+`seconds` format did before its `fix:` commit; the check instantiates it with the `ast` scan of the tree under test
+(`Generated/TimePurity.lean`), which must find no in-place operation on a parameter outside the deepcopy `memo` protocol
+and the HDF5 writer. -/
+
+/-- regenerated table: no such operation in `_time.py`; the only flag writes *freeze* (`writeable = False`), and they are the
+four sites that protect a time object's own storage -/
+theorem no_inplace_on_operands :
+    srcWrites = false ∧
+    (Midgard.Generated.TimePurity.inplace.filter (fun e => e.kind == "flags")).all (fun e => e.detail == "False") = true ∧
+    (Midgard.Generated.TimePurity.inplace.filter (fun e => e.kind == "flags")).map (fun e => (e.fn, e.target))
+      = [("_read_only", "value.flags.writeable"), ("TimeBase.__new__", "jd1.flags.writeable"),
+         ("TimeBase.__new__", "jd2.flags.writeable"), ("TimeBase.__array_finalize__", "self.flags.writeable"),
+         ("TimeBase.__array_finalize__", "self.jd1.flags.writeable"), ("TimeBase.__array_finalize__", "self.jd2.flags.writeable")] := by
+  decide +kernel
+
+/-- **`ops_pure`** (frame condition): for every heap, operator and pair of operand objects — scalars or arrays, any shapes,
+any scales — every buffer that existed before `a ± b` has the same contents and the same flag afterwards; likewise for every
+duration constructor as the tree under test is written (`srcWrites`) -/
+theorem ops_pure (h : Heap) :
+    (∀ (op : Op) (a b : Obj) (i : Nat), i < h.length → (binopH h op a b).1[i]? = h[i]?) ∧
+    (∀ (f : DFmt) (s : Scale) (val : Part) (val2 : Option Part) (i : Nat), i < h.length →
+      (ctorH srcWrites h f s val val2).1[i]? = h[i]?) := by
+  constructor
+  · intro op a b i hi; exact prefix_getElem? (binopH_prefix h op a b) i hi
+  · intro f s val val2 i hi
+    rw [no_inplace_on_operands.1]
+    exact prefix_getElem? (ctorH_prefix h f s val val2) i hi
+
+/-- the operators on the heap compute the array model's value, into new frozen buffers -/
+theorem ops_refine (h : Heap) (op : Op) (a b : Obj) (va vb : Val)
+    (ha : h.readVal a.p1 a.p2 = some va) (hb : h.readVal b.p1 b.p2 = some vb) (k : Kind) (v : Val)
+    (hv : binopV op a.kind a.scale va b.kind b.scale vb = .ok k v) :
+    ∃ o, (binopH h op a b).2 = .ok o ∧ o.kind = k ∧ o.scale = a.scale ∧ (binopH h op a b).1.readVal o.p1 o.p2 = some v := by
+  have := binopH_refines h op a b va vb ha hb
+  rw [hv] at this
+  exact this
+
+/-- the switch matters: with an in-place rescaling the caller's array is changed (buffer 0: 86400 s → 1) -/
+theorem inplace_ctor_mutates :
+    (ctorH true [⟨[86400], true⟩] .seconds .utc (.ref 0) none).1[0]? = some ⟨[1], true⟩ ∧
+    (ctorH false [⟨[86400], true⟩] .seconds .utc (.ref 0) none).1[0]? = some ⟨[86400], true⟩ ∧
+    (ctorH true [⟨[86400], true⟩] .seconds .utc (.ref 0) none).2 = (ctorH false [⟨[86400], true⟩] .seconds .utc (.ref 0) none).2 := by
+  decide +kernel
+
+/-! ### "to better than 1 ns for durations up to decades": the rounding-error budget
+
+`Proofs/TimeFloat.lean`: `Rounding` = any rounding function with relative error ≤ `u` per operation that returns multiples of
+1/2 up to 2⁵² unchanged (IEEE doubles: u = 2⁻⁵³); `flPw R σ` = the model's operators (`pw_ops`) with both result parts
+rounded.  `Stored B1 B2 j`: day part a multiple of 1/2 with |jd1| ≤ B1, fraction part |jd2| ≤ B2 — what the constructors
+store (`toJds_normalised`: integer, [0, 1); epochs: C02). -/
+
+/-- **normalisation invariant of every operation**: results are stored values again; in exact arithmetic the bounds add
+(one operation on constructed operands: |jd2| < 2; after n operations: < n + 1), with rounding the fraction bound is inflated
+by (1 + u); the day part is computed without any rounding -/
+theorem result_normalised (R : Rounding) {σ B1 B2 C1 C2 : Rat} (hσ : σ = 1 ∨ σ = -1) {a b : JD}
+    (ha : Stored B1 B2 a) (hb : Stored C1 C2 b) (hB : B1 + C1 ≤ 2 ^ 52) :
+    Stored (B1 + C1) ((1 + R.u) * (B2 + C2)) (flPw R σ a b) ∧ (flPw R σ a b).jd1 = (pw σ a b).jd1 ∧
+    Stored (B1 + C1) (B2 + C2) (pw σ a b) := by
+  refine ⟨flPw_stored R hσ ha hb hB, flPw_jd1 R hσ ha hb hB, ?_⟩
+  have := flPw_stored Rounding.exact hσ ha hb hB
+  rw [flPw_exact] at this
+  have hu : Rounding.exact.u = 0 := rfl
+  simpa [hu] using this
+
+/-- the six operators are `pw (±1)`, and rounding nothing gives the exact model -/
+theorem float_model_is_model (a b : JD) :
+    tAddD a b = flPw Rounding.exact 1 a b ∧ dAddD a b = flPw Rounding.exact 1 a b ∧ dAddT a b = flPw Rounding.exact 1 a b ∧
+    tSubD a b = flPw Rounding.exact (-1) a b ∧ tSubT a b = flPw Rounding.exact (-1) a b ∧
+    dSubD a b = flPw Rounding.exact (-1) a b := by
+  simpa [flPw_exact] using pw_ops a b
+
+/-- one operation: the computed instant differs from the exact one by at most u·(|jd2| + |jd2'|) — 2u for constructed operands -/
+theorem one_op_error (R : Rounding) {σ : Rat} (hσ : σ = 1 ∨ σ = -1) {a b : JD}
+    (ha : Stored (2 ^ 50) 1 a) (hb : Stored (2 ^ 50) 1 b) :
+    |(flPw R σ a b).inst - (pw σ a b).inst| ≤ 2 * R.u := by
+  have := flPw_err R hσ ha hb (by norm_num)
+  linarith
+
+/-- **the six laws in rounded arithmetic**: for stored operands with |jd1| ≤ 2⁵⁰ days (the property asks for 40 000 days
+around epochs of 2.5 million) and fraction parts of size ≤ 1, each law holds to 6u days, i.e. 5.8·10⁻¹¹ s for doubles -/
+theorem laws_rounded (R : Rounding) (hu : R.u ≤ 1 / 2) {t t₂ d e : JD}
+    (ht : Stored (2 ^ 50) 1 t) (ht₂ : Stored (2 ^ 50) 1 t₂) (hd : Stored (2 ^ 50) 1 d) (he : Stored (2 ^ 50) 1 e) :
+    |(flPw R (-1) (flPw R 1 t d) t).inst - d.inst| ≤ 6 * R.u ∧          -- (t + d) − t = d
+    |(flPw R 1 (flPw R (-1) t d) d).inst - t.inst| ≤ 6 * R.u ∧          -- (t − d) + d = t
+    |(flPw R 1 (flPw R (-1) t₂ t) t).inst - t₂.inst| ≤ 6 * R.u ∧        -- (t₂ − t₁) + t₁ = t₂
+    |(flPw R (-1) t d).inst - (flPw R 1 t ⟨-d.jd1, -d.jd2⟩).inst| ≤ 6 * R.u ∧   -- t − d = t + (−d)
+    flPw R 1 d e = flPw R 1 e d ∧                                         -- d₁ + d₂ = d₂ + d₁
+    |(flPw R (-1) (flPw R 1 d e) e).inst - d.inst| ≤ 6 * R.u := by       -- (d₁ + d₂) − d₂ = d₁
+  have p1 : (1 : Rat) = 1 ∨ (1 : Rat) = -1 := Or.inl rfl
+  have m1 : (-1 : Rat) = 1 ∨ (-1 : Rat) = -1 := Or.inr rfl
+  have key : ∀ (σ τ : Rat) (a b c : JD), (pw τ (pw σ a b) c).inst = a.inst + σ * b.inst + τ * c.inst := by
+    intro σ τ a b c; simp only [pw, JD.inst]; ring
+  refine ⟨?_, ?_, ?_, ?_, ?_, ?_⟩
+  · have := flPw_two_ops R hu p1 m1 ht hd ht
+    rw [key] at this; convert this using 2; ring
+  · have := flPw_two_ops R hu m1 p1 ht hd hd
+    rw [key] at this; convert this using 2; ring
+  · have := flPw_two_ops R hu m1 p1 ht₂ ht ht
+    rw [key] at this; convert this using 2; ring
+  · have hn : Stored (2 ^ 50) 1 (⟨-d.jd1, -d.jd2⟩ : JD) := by
+      obtain ⟨⟨k, hk⟩, h1, h2⟩ := hd
+      exact ⟨⟨-k, by simp [hk]; ring⟩, by simpa using h1, by simpa using h2⟩
+    have e1 := one_op_error R m1 ht hd
+    have e2 := one_op_error R p1 ht hn
+    have hsame : (pw (-1) t d).inst = (pw 1 t ⟨-d.jd1, -d.jd2⟩).inst := by simp only [pw, JD.inst]; ring
+    have := abs_sub_le (flPw R (-1) t d).inst (pw (-1) t d).inst (flPw R 1 t ⟨-d.jd1, -d.jd2⟩).inst
+    rw [hsame, abs_sub_comm (pw 1 t ⟨-d.jd1, -d.jd2⟩).inst] at this
+    have hu0 := R.u_nonneg
+    rw [hsame] at e1
+    linarith
+  · simp only [flPw, JD.mk.injEq]
+    constructor <;> (congr 1; ring)
+  · have := flPw_two_ops R hu p1 m1 hd he he
+    rw [key] at this; convert this using 2; ring
+
+/-- 6u days at u = 2⁻⁵³ in seconds: below the nanosecond of the statement, with a factor 17 to spare -/
+theorem error_budget : 6 * ((1 : Rat) / 2 ^ 53) * 86400 < 1 / 10 ^ 9 ∧ (2 : Rat) ^ 50 > 2500000 + 40000 := by
+  constructor <;> norm_num
+
+/-- the hypotheses are met: a constructed epoch and a constructed 40 000-day duration are `Stored (2⁵⁰) 1` -/
+example : Stored (2 ^ 50) 1 (⟨2458000, 1/4⟩ : JD) ∧ Stored (2 ^ 50) 1 (DFmt.toJds .days (-40000 + 1/3) 0) :=
+  ⟨⟨⟨4916000, by norm_num⟩, by norm_num, by norm_num⟩, by
+    have h : DFmt.toJds .days (-40000 + 1/3) 0 = ⟨-40000, 1/3⟩ := by decide +kernel
+    rw [h]; exact ⟨⟨-80000, by norm_num⟩, by norm_num, by norm_num⟩⟩
+
 /-! ### The model is the source (regenerated on every run)
 
 `Generated/SourceExprsTime.lean` is written by `translator/extract_exprs.py` from the Python `ast` of `_time.py` in
@@ -133,7 +391,8 @@ the tree under test: for each of the four operator methods and each kind of righ
 takes (which parts each result part is built from, what kind of object it returns, or `NotImplemented`), the scale
 guard, and `_to_jds`/`_from_jds` of the duration formats jd, days, seconds.  The theorems of this section say that
 the model's `binop`, `DFmt.toJds`, `DFmt.fromJds` are *equal* to those regenerated definitions.  Hand-modelled and
-tied by the correspondence only: the `timedelta` format (CPython's timedelta arithmetic) and NumPy broadcasting. -/
+tied by the correspondence only: the `timedelta` format (CPython's timedelta arithmetic) and NumPy broadcasting
+(`broadcast2`, run against the real operators on scalar / length-1 / length-n / mismatching operands). -/
 section Source
 open Midgard.Generated
 set_option linter.unusedTactic false
@@ -212,3 +471,21 @@ end Midgard.Props.C03
 #print axioms Midgard.Props.C03.source_binop
 #print axioms Midgard.Props.C03.source_binop_mixed
 #print axioms Midgard.Props.C03.source_duration_formats
+#print axioms Midgard.Props.C03.binopV_elementwise
+#print axioms Midgard.Props.C03.mixed_scale_refused_arrays
+#print axioms Midgard.Props.C03.binopV_ok
+#print axioms Midgard.Props.C03.add_sub_cancel_arrays
+#print axioms Midgard.Props.C03.sub_add_cancel_arrays
+#print axioms Midgard.Props.C03.diff_add_arrays
+#print axioms Midgard.Props.C03.sub_eq_add_neg_arrays
+#print axioms Midgard.Props.C03.delta_add_comm_arrays
+#print axioms Midgard.Props.C03.delta_add_sub_arrays
+#print axioms Midgard.Props.C03.no_inplace_on_operands
+#print axioms Midgard.Props.C03.ops_pure
+#print axioms Midgard.Props.C03.ops_refine
+#print axioms Midgard.Props.C03.inplace_ctor_mutates
+#print axioms Midgard.Props.C03.result_normalised
+#print axioms Midgard.Props.C03.float_model_is_model
+#print axioms Midgard.Props.C03.one_op_error
+#print axioms Midgard.Props.C03.laws_rounded
+#print axioms Midgard.Props.C03.error_budget
